@@ -45,3 +45,25 @@ K('C02.c', property='C02', engine='symex', harness='C02/nugget.cpp', entry='k_nu
 
 CLAIMS = {'C02': 'Decided: code-level facts the statement rests on (non-negative stored standard deviation, estimate affine in the data with the same weights, nugget at zero distance only); '
                  'exactness/unbiasedness of the solved system are not claimed (they need the inverse).'}
+
+
+# ---------------------------------------------------------------- C02.e (builder2: translation invariance of increments / distances)
+_TR_TUS = ['src/Geometry/BiTargetCheckDistance.cpp', 'src/Geometry/ABiTargetCheck.cpp', 'src/Geometry/GeometryHelper.cpp',
+           'src/Core/matrix.cpp', 'src/Space/SpaceRN.cpp', 'src/Space/ASpace.cpp', 'src/Space/ASpaceObject.cpp',
+           'src/Space/SpacePoint.cpp', 'src/Space/SpaceTarget.cpp', 'src/Basic/AStringable.cpp', 'src/Basic/Utilities.cpp',
+           'src/Basic/VectorHelper.cpp']
+for _nd in (2, 3):
+    K('C02.e.%d' % _nd, property='C02', engine='symex', harness='C02/transl.cpp', entries=['k_increment', 'k_check_distance'], tus=_TR_TUS,
+      defines={'all': {'VF_ND': _nd}}, symex={'fp_exact': True},
+      bounds={'quick': 'ndim = %d; both points and the translation vector arbitrary integer vectors, |coordinate| <= 2^20; radius an arbitrary integer in [-2^20, 2^20]; '
+                       'anisotropy coefficients each in {1, 2, 4, 8}, no rotation' % _nd},
+      timeout_ms={'quick': 120000, 'thorough': 600000}, validate={'quick': 30, 'thorough': 60}, validate_doubles='int',
+      what='C02.e SpacePoint::move / getIncrement / getDistance (ASpaceObject, ASpace, SpaceRN::_move/_getIncrement/_getDistance) and BiTargetCheckDistance::isOK '
+           '(+ constructor, _calculateDistance, matrix_product_safe): after translating both points by the same vector with the library\'s move(), '
+           'increment == coordinate difference of the original pair, distance == sqrt(sum of squared differences of the original pair), '
+           'symmetric; isOK <=> radius >= 0 and sum ((x1-x2)/c)^2 <= radius^2 on the original pair',
+      out='non-integer coordinates (rounding of x+t makes increments differ in the last place: translation invariance is exact only where the additions are); '
+          'rotated anisotropy (_flagRotation); tensor distances (ASpace::getDistance with a Tensor); spaces other than RN; invariance of the whole kriging output',
+      assumptions=['integer-grid inputs: every +,-,* of the encoded code is exact in IEEE double as well (fp_exact bridge); divisions are by powers of two; '
+                   'sqrt modelled exactly (r >= 0, r*r == x) and only compared with an integer radius'],
+      stubs=['ASpaceObject(const ASpace*) -> keeps the pointer instead of cloning the space; ~ASpaceObject -> does not delete it'])
